@@ -369,7 +369,7 @@ Section Check.
           match a with ELoad _ lw (ECons x ENil) => okw_b lw && pfrag_check V x | _ => false end))%bool
     | EUn u a => (unop_ok u && pfrag_check V a)%bool
     | EBin b l r => (binop_ok b && pfrag_check V l && pfrag_check V r)%bool
-    | ECond c t f => (pfrag_check V c && pfrag_check V t && pfrag_check V f && negb (litlike c))%bool
+    | ECond c t f => (pfrag_check V c && pfrag_check V t && pfrag_check V f)%bool
     | Ast.ECall f (ECons a ENil) => (String.eqb f "sizeof" && pfrag_check V a)%bool
     | EMacro m (ECons x ENil) => (mac1_b m && pfrag_check V x)%bool
     | EMacro m (ECons x (ECons s (ECons l ENil))) => (mac3_b m && pfrag_check V x && pfrag_check V s && pfrag_check V l)%bool
@@ -413,6 +413,7 @@ Section Check.
               then Some (D ++ [(x, Some (ty_int false 32))], V ++ [(x, Some (ty_int false 32))]) else None
           end
         else None
+    | SExpr (EOp (OImm l)) => if IM l then Some (D, V) else None      (* (uiV); *)
     | SDecl ts x (Some e) =>
         match decl_ty_of ts with
         | Some (sg, w) =>
@@ -505,8 +506,8 @@ Section Check.
     - (* binary *)
       intros H. apply andb3 in H. destruct H as [H [H1 H2]]. apply binop_ok_iff in H. exact (pf_bin rw IM V b e1 e2 H (IH e1 H1) (IH e2 H2)).
     - (* conditional *)
-      intros H. apply andb4 in H. destruct H as [H1 [H2 [H3 H4]]]. apply negb_true_iff in H4.
-      exact (pf_cond rw IM V e1 e2 e3 (IH e1 H1) (IH e2 H2) (IH e3 H3) H4).
+      intros H. apply andb3 in H. destruct H as [H1 [H2 H3]].
+      exact (pf_cond rw IM V e1 e2 e3 (IH e1 H1) (IH e2 H2) (IH e3 H3)).
     - (* sizeof *)
       destruct args as [|x [|y r]]; try discriminate.
       intros H. apply andb2 in H. destruct H as [H H0]. apply String.eqb_eq in H. subst f. exact (pf_sizeof rw IM V x (IH x H0)).
@@ -524,7 +525,7 @@ Section Check.
     intros V e H.
     induction H as [x sg w Hl Hw | v hex suf t Hv Hl | cls letters acc Hc Ha Hw | cls letters acc Hc Ha Hw | l Hl
                    | name new Hin Hw | name new Hin Hw |
-                   | ts sg w e Hts _ IH | u e Hu _ IH | b l r Hb _ IHl _ IHr | c t f _ IHc _ IHt _ IHf Hlit
+                   | ts sg w e Hts _ IH | u e Hu _ IH | b l r Hb _ IHl _ IHr | c t f _ IHc _ IHt _ IHf
                    | e _ IH
                    | ts sg w lsg lw a Hts Hlw _ IH | m x Hm _ IHx | m x s l Hm _ IHx _ IHs _ IHl
                    | m x s l f Hm _ IHx _ IHs _ IHl _ IHf];
@@ -540,7 +541,7 @@ Section Check.
     - apply cast_ty_of_iff in Hts. rewrite Hts, IH. reflexivity.
     - apply unop_ok_iff in Hu. rewrite Hu, IH. reflexivity.
     - apply binop_ok_iff in Hb. rewrite Hb, IHl, IHr. reflexivity.
-    - rewrite IHc, IHt, IHf, Hlit. reflexivity.
+    - rewrite IHc, IHt, IHf. reflexivity.
     - rewrite IH. reflexivity.
     - apply cast_ty_of_iff in Hts. rewrite Hts, IH. apply okw_b_iff in Hlw. rewrite Hlw. reflexivity.
     - apply mac1_b_iff in Hm. rewrite Hm, IHx. reflexivity.
@@ -571,7 +572,9 @@ Section Check.
   Lemma sound_expr_stmt e : sound_s (SExpr e).
   Proof.
     intros D V D' V'. cbn [sfrag_check].
-    destruct e as [| | | | | a l r | | f args | | | | | | | | | |]; try discriminate.
+    destruct e as [o0 | | | | | a l r | | f args | | | | | | | | | |]; try discriminate.
+    1:{ destruct o0 as [| | | | l0 | | | |]; try discriminate. destruct (IM l0) eqn:El; [|discriminate].
+        intros H. injection H as <- <-. exact (sf_expr_imm rw IM D V l0 El). }
     2:{ destruct args as [|a [|b [|c r]]]; try discriminate.
         match goal with |- (if ?c then _ else _) = _ -> _ => destruct c eqn:Ec end; [|discriminate].
         intros H. injection H as <- <-. apply andb3 in Ec. destruct Ec as [Hf [Ha Hb]]. apply String.eqb_eq in Hf. subst f.
@@ -742,6 +745,7 @@ Proof.
     reflexivity.
   - intros D V ts sg w x Hd Hl Hr. cbn [sfrag_check].
     rewrite (proj2 (decl_ty_of_iff ts sg w) Hd), (proj2 (fresh_b_iff D x) Hl), (proj2 (reserved_b_false IM x) Hr). reflexivity.
+  - intros D V l Hl. cbn [sfrag_check]. rewrite Hl. reflexivity.
   - reflexivity.
   - reflexivity.
   - reflexivity.
